@@ -227,8 +227,10 @@ def own_namespaces(rule):
 
 def snapshot_conflict(rule):
     """signature of the recorded finding C15-detached-stale-prefix-snapshots: two selectors of a detached rule carry namespace snapshots
-    that bind one prefix to different URIs (they were written before and after the sheet re-used that prefix). None or a message"""
+    that bind one prefix to different URIs (they were written before and after the sheet re-used that prefix), or one of them binds the default
+    namespace while another was written when there was none and holds an unprefixed name. None or a message"""
     seen = {}
+    nodefault = None      # a selector written while there was no default namespace: it holds an unprefixed name in any namespace, (None, name)
     for sel in rule.selectorList:
         try:
             snap = dict(sel._namespaces.items())
@@ -238,6 +240,11 @@ def snapshot_conflict(rule):
             if seen.setdefault(p, (u, sel.selectorText))[0] != u:
                 return (f'the selectors carry snapshots that disagree on prefix {p!r}: {seen[p][1]!r} was written when it meant {seen[p][0]!r}, '
                         f'{sel.selectorText!r} when it meant {u!r}')
+        if '' not in snap and any(isinstance(it.value, tuple) and it.value[0] is None for it in sel.seq):
+            nodefault = sel.selectorText
+    if nodefault is not None and '' in seen:
+        return (f"the selectors carry snapshots that disagree on the default namespace: {seen[''][1]!r} was written when it was {seen[''][0]!r}, "
+                f'{nodefault!r} when there was none')
     return None
 
 
